@@ -15,6 +15,7 @@ pub mod c14;
 pub mod c15;
 pub mod c16;
 pub mod c17;
+pub mod c18;
 pub mod c19;
 pub mod c20;
 pub mod selftest;
@@ -41,6 +42,7 @@ pub fn run(id: &str, tier: Tier, hash_out: Option<String>) -> i32 {
         "C15" => c15::run(tier),
         "C16" => c16::run(tier),
         "C17" => c17::run(tier),
+        "C18" => c18::run(tier),
         "C19" => c19::run(tier),
         "C20" => c20::run(tier),
         _ => {
@@ -69,6 +71,7 @@ pub fn replay_families(id: &str, tier: Tier) -> Option<Vec<Family<'static>>> {
         "C15" => Some(c15::replay_families(tier)),
         "C16" => Some(c16::replay_families(tier)),
         "C17" => Some(c17::replay_families(tier)),
+        "C18" => Some(c18::replay_families(tier)),
         "C19" => Some(c19::replay_families(tier)),
         "C20" => Some(c20::replay_families(tier)),
         _ => None,
